@@ -361,6 +361,17 @@ pub fn execute_c06(plan: &Plan) -> Outcome {
                     let (w, how) = wrong_creds(&c, &mut g, how_n);
                     (how.to_owned(), RefClient::start(&w, &mut g, unix_now(), &addr, b"attack-payload-1", &ClientOpts::default()).1)
                 }
+                3 if i % 12 == 9 && !c.user_keys.is_empty() && supports_eih(&c.cipher) => {
+                    // multi-user server: the peer holds the server key only. Whatever sits in the identity-header slot (random
+                    // bytes, or the hash of the server key itself), the body is sealed under the server key.
+                    let salt = g.bytes(key_len(&c.cipher));
+                    let eih = if g.chance(50) {
+                        g.bytes(16)
+                    } else {
+                        refimpl::ss2022::tcp_eih(&[c.psk.clone(), c.psk.clone()], &salt)
+                    };
+                    ("server-key-alone-with-bogus-identity".into(), refimpl::ss2022::request_with_identity_bytes(&c.cipher, &eih, &c.psk, &salt, &addr, b"attack-payload-4", unix_now()))
+                }
                 3 if i % 12 == 3 => {
                     // a valid handshake with its credential proof shortened: the first k bytes of the Trojan hash line
                     // (k = 0 is an empty line), a shorter salt, a shorter auth id - the rest of the request intact
@@ -999,4 +1010,137 @@ pub fn execute_c07(plan: &Plan) -> Outcome {
 
 fn out_panics() -> usize {
     crate::rt::peek_panics()
+}
+
+// ---------------------------------------------------------------- C09: two users, one datagram session id
+
+/// C09 for state keyed by a datagram session id: user A's session must come to the same result whether or not another
+/// registered user B sends under the same session id (at the same time, or after A's entries in the shared caches have
+/// expired). The reference client plays both users against the real server.
+pub fn gen_c09_sid(seed: u64, _thorough: bool) -> Plan {
+    let mut g = Gen::new(seed, 96);
+    let cipher = ["2022-blake3-aes-128-gcm", "2022-blake3-aes-256-gcm"][seed as usize % 2];
+    let mut config = gen_config(&mut g, Proto::Shadowsocks, cipher, Transport::Tcp, 2);
+    config.server_mode = if g.chance(50) { "udp" } else { "tcp_and_udp" }.into();
+    Plan {
+        property: "C09".into(),
+        scenario: "shared-session-id".into(),
+        seed,
+        net_seed: g.next(),
+        config,
+        knobs: KnobsPlan::simple(),
+        flows: vec![],
+        extra: serde_json::json!({ "variant": (seed / 2) % 4, "gap_s": *g.pick(&[0u64, 1, 29, 31, 40, 65]), "sub_seed": g.next() }),
+    }
+}
+
+pub fn execute_c09_sid(plan: &Plan) -> Outcome {
+    let c = creds(&plan.config);
+    let cell = plan.config.family();
+    let variant = plan.extra["variant"].as_u64().unwrap_or(0);
+    let gap_s = plan.extra["gap_s"].as_u64().unwrap_or(31);
+    let mut g = Gen::new(plan.extra["sub_seed"].as_u64().unwrap_or(1), 97);
+    let out = rt::run_sim(plan.seed, plan.net_seed, plan.knobs.to_knobs(), || async {
+        let mut findings: Vec<(String, String)> = Vec::new();
+        let log = Arc::new(Mutex::new(TLog::default()));
+        let _t = spawn_scoped(target(log.clone()));
+        tokio::task::yield_now().await;
+        let server = start_server_json(plan.config.server_json());
+        tokio::task::yield_now().await;
+        if !settle(|| udp_bound(SERVER_PORT)).await {
+            return (Some(format!("server did not come up (finished={})", server.is_finished())), findings, 0u64);
+        }
+        let addr = Addr::V4(T_IP, T_PORT);
+        let (ka, kb) = (c.user_keys[0].clone(), c.user_keys[1].clone());
+        let a = UdpSocket::bind(SocketAddr::new(IpAddr::V4(Ipv4Addr::LOCALHOST), 0)).await.unwrap();
+        let b = UdpSocket::bind(SocketAddr::new(IpAddr::V4(Ipv4Addr::LOCALHOST), 0)).await.unwrap();
+        let sid_a: u64 = g.next();
+        let sid_b: u64 = if variant == 3 { g.next() } else { sid_a };
+        let mk = |key: &Vec<u8>, sid: u64, pid: u64, payload: &[u8]| {
+            let body = refimpl::ss2022::UdpBody { session_id: sid, packet_id: pid, stream_type: 0, timestamp: unix_now(), client_session_id: None, padding: 0, addr: addr.clone(), payload: payload.to_vec() };
+            refimpl::ss2022::udp_packet_aes(&c.cipher, &[c.psk.clone(), key.clone()], &body)
+        };
+        // the history: A's datagrams are what is judged; B's are the neighbour
+        let mut sent_a: Vec<Vec<u8>> = Vec::new();
+        let mut pid_a = 0u64;
+        let mut pid_b = 1000u64;
+        let mut steps: Vec<(&str, u64)> = match variant {
+            0 => vec![("a", 0), ("b", 0), ("a", 0), ("b", 0), ("a", 0)],
+            1 => vec![("a", 0), ("gap", gap_s), ("b", 0), ("a", 0), ("gap", gap_s), ("b", 0), ("b", 0), ("a", 0)],
+            2 => vec![("a", 0), ("a", 0), ("gap", gap_s), ("b", 0), ("gap", 1), ("a", 0), ("a", 0)],
+            _ => vec![("a", 0), ("b", 0), ("a", 0), ("gap", gap_s), ("b", 0), ("a", 0)],
+        };
+        steps.push(("a", 0));
+        for (who, arg) in steps {
+            match who {
+                "gap" => tokio::time::sleep(Duration::from_secs(arg)).await,
+                "a" => {
+                    pid_a += 1;
+                    let p = format!("user-a-datagram-{pid_a}").into_bytes();
+                    let _ = a.send_to(&mk(&ka, sid_a, pid_a, &p), server_addr()).await;
+                    sent_a.push(p);
+                    tokio::time::sleep(Duration::from_millis(30)).await;
+                }
+                _ => {
+                    pid_b += 1;
+                    let p = format!("user-b-datagram-{pid_b}").into_bytes();
+                    let _ = b.send_to(&mk(&kb, sid_b, pid_b, &p), server_addr()).await;
+                    tokio::time::sleep(Duration::from_millis(30)).await;
+                }
+            }
+        }
+        tokio::time::sleep(Duration::from_millis(200)).await;
+        let at_target: Vec<Vec<u8>> = log.lock().unwrap().udp.iter().map(|(_, d)| d.clone()).collect();
+        for (i, p) in sent_a.iter().enumerate() {
+            let n = at_target.iter().filter(|d| *d == p).count();
+            if n != 1 {
+                findings.push(("session-of-user-a-disturbed".into(), format!("datagram {} of user A's session reached the target {n} times (variant {variant}, gap {gap_s} s; user B {} A's session id)", i + 1, if sid_a == sid_b { "sends under" } else { "does not share" })));
+                break;
+            }
+        }
+        // A's replies open under A's key
+        let mut buf = vec![0u8; 65536];
+        let mut replies = 0;
+        while let Ok(Ok((n, _))) = tokio::time::timeout(Duration::from_millis(5), a.recv_from(&mut buf)).await {
+            replies += 1;
+            if refimpl::ss2022::udp_open_aes(&c.cipher, &ka, &[ka.clone()], 0, &buf[..n], true).is_err() {
+                findings.push(("reply-to-user-a-under-another-key".into(), format!("a reply delivered to user A does not open under A's key (variant {variant})")));
+                break;
+            }
+        }
+        if replies == 0 {
+            findings.push(("session-of-user-a-disturbed".into(), format!("user A received no reply at all (variant {variant}, gap {gap_s} s)")));
+        }
+        (None, findings, sent_a.len() as u64)
+    });
+    let (startup, findings, n) = out.result.clone();
+    let mut v = Vec::new();
+    if let Some(e) = startup {
+        v.push(Violation::new("C09", format!("C09/shared-session-id-startup/{cell}"), e));
+    }
+    for (oracle, detail) in &findings {
+        if !v.iter().any(|x: &Violation| x.signature.contains(oracle.as_str())) {
+            v.push(Violation::new("C09", format!("C09/{oracle}/{cell}"), detail.clone()));
+        }
+    }
+    for p in &out.panics {
+        v.push(Violation::new("C09", format!("C09/panic/{cell}/{}", p.frame), format!("panic in node {}: {} at {}", p.node, p.message, p.location)));
+    }
+    let mut probes = BTreeMap::new();
+    probes.insert(format!("shared_session_id_variant_{variant}"), 1);
+    Outcome {
+        violations: v,
+        ev_hash: out.world.ev_hash,
+        ev_count: out.world.ev_count,
+        poll_hash: out.poll_hash,
+        polls: out.polls,
+        sim_ns: out.sim_ns,
+        stats: crate::report::world_stats(&out.world),
+        nontrivial: n > 0,
+        case_hash: out.poll_hash ^ plan.seed.wrapping_mul(0x9E3779B97F4A7C15),
+        probes,
+        panics: out.panics,
+        extra_evaluations: 0,
+        extra_cases: Vec::new(),
+    }
 }
